@@ -194,7 +194,8 @@ type Reject struct {
 	At    int             `json:"at"`
 	Event json.RawMessage `json:"event"`
 	Why   string          `json:"why,omitempty"`
-	KF    string          `json:"kf,omitempty"` // name of a matching known-finding selector, "" if none
+
+	KF string `json:"kf,omitempty"` // name of a matching known-finding selector, "" if none
 }
 
 type JudgeResult struct {
@@ -234,7 +235,7 @@ func Judge(module string, events [][]byte, extra map[string][]byte) (JudgeResult
 			Case       string          `json:"case"`
 			At         int             `json:"at"`
 			Event      json.RawMessage `json:"event"`
-			Why        string          `json:"why"`
+			Why        json.RawMessage `json:"why"`
 			KF         string          `json:"kf"`
 			Accepted   int             `json:"accepted"`
 			Nontrivial int             `json:"nontrivial"`
@@ -244,7 +245,7 @@ func Judge(module string, events [][]byte, extra map[string][]byte) (JudgeResult
 		}
 		switch v.Verdict {
 		case "REJECT":
-			jr.Rejects = append(jr.Rejects, Reject{Case: v.Case, At: v.At, Event: v.Event, Why: v.Why, KF: v.KF})
+			jr.Rejects = append(jr.Rejects, Reject{Case: v.Case, At: v.At, Event: v.Event, Why: string(v.Why), KF: v.KF})
 		case "END":
 			jr.Ended = true
 			jr.EndAt = v.At
